@@ -1126,6 +1126,7 @@ package bkl
 //@     invariant (= (rapp ret (filterMatch (heap Document.Data) rest pat)) (rapp ret@loop (filterMatch (heap Document.Data) ds pat)))
 
 //@ func yamlTranslateNode(node, depth) (res, err)
+//@   property C14   -- what $decode: yaml makes of every scalar
 //@   propagates all   [C08]
 //@   uses canonApp
 //@   ensures (=> (not (isErr err)) (canon res))                                                              [C04]
@@ -1291,6 +1292,7 @@ package bkl
 //@                   (and (not (isErr err)) (= real (findFileF (trimSuffix path (str.++ "." (extOf path))))) (= format (extOf path)))))
 //
 //@ func file.parentsFromFilename(f) (res, err)
+//@   property C18 shallow   -- an attempt to reach a layer outside the root must FAIL, whatever exists there: which names are parents, and that a name without a file is an error and not "no parents", is decided here
 //@   propagates all   [C08]
 //@   property C03
 //@   ensures (=> (isStdinF (file.path f)) (and (not (isErr err)) (= res (Slice SNil))))                                                            [C03]
@@ -1337,6 +1339,7 @@ package bkl
 //@     invariant (= (sapp (sitems ret) (absList (file.root f) (pathDir (file.path f)) rest)) (absList (file.root f) (pathDir (file.path f)) (sitems paths)))
 //
 //@ func file.parentsFromSymlink(f) (res, err)
+//@   property C18 shallow   -- an attempt to reach a layer outside the root must FAIL, whatever exists there: which names are parents, and that a name without a file is an error and not "no parents", is decided here
 //@   propagates all   [C08]
 //@   effects probe:filepath.EvalSymlinks
 //@   property C03
@@ -1355,6 +1358,7 @@ package bkl
 //
 
 //@ func file.parentsFromDirective(f) (res, err)
+//@   property C18 shallow   -- an attempt to reach a layer outside the root must FAIL, whatever exists there: which names are parents, and that a name without a file is an error and not "no parents", is decided here
 //@   propagates all   [C08]
 //@   property C03
 //@   uses sappNil, sappAssoc, ssnocApp, rdistinctApp, rmemApp
@@ -1370,6 +1374,7 @@ package bkl
 //@     invariant (= (sapp (sitems parents) (dirStrs (old (heap Document.Data)) rest)) (dirStrs (old (heap Document.Data)) (file.docs f)))
 //
 //@ func file.parents(f) (res, err)
+//@   property C18 shallow   -- an attempt to reach a layer outside the root must FAIL, whatever exists there: which names are parents, and that a name without a file is an error and not "no parents", is decided here
 //@   propagates all   [C08] [C20] [C07] [C03]
 //@   property C03
 //@   requires (rdistinct (file.docs f))
@@ -1389,7 +1394,7 @@ package bkl
 
 //@ func tomlMarshalStream(vs) (res, err)
 //@   propagates all   [C08]
-//@   property C05
+//@   property C05, C14   -- $encode: <format> / $decode: <format> run these codecs (reached through the format table, not a static call)
 //@   ensures (= (isErr err) (seqEncErr codecTOML (ls vs) 0))                                                 [C05]
 //@   ensures (=> (not (isErr err)) (= res (tomlFrame codecTOML (ls vs) 0)))                                  [C05]
 //@   loop 1
@@ -1400,7 +1405,7 @@ package bkl
 //
 //@ func tomlUnmarshalStream(in) (res, err)
 //@   propagates all   [C08]
-//@   property C05, C04
+//@   property C05, C04, C14   -- $encode: <format> / $decode: <format> run these codecs (reached through the format table, not a static call)
 //@   uses appNil, snocApp
 //@   ensures (= (isErr err) (tomlDecE (reSplit (rePat tomlRE) in (- 1))))                                    [C05]
 //@   ensures (=> (not (isErr err)) (= res (VList (tomlDecF (reSplit (rePat tomlRE) in (- 1))))))             [C05]
@@ -1411,7 +1416,7 @@ package bkl
 //
 //@ func yamlUnmarshalStream(in) (res, err)
 //@   propagates all   [C08]
-//@   property C05, C04
+//@   property C05, C04, C14   -- $encode: <format> / $decode: <format> run these codecs (reached through the format table, not a static call)
 //@   uses appLen
 //@   ensures (=> (not (isErr err)) (= (llen (ls res)) (sllen (reSplit (rePat yamlRE) in (- 1)))))           [C05]
 //@   loop 1
@@ -1420,7 +1425,7 @@ package bkl
 //
 //@ func jsonUnmarshalStream(in) (res, err)
 //@   propagates all   [C08]
-//@   property C05, C04
+//@   property C05, C04, C14   -- $encode: <format> / $decode: <format> run these codecs (reached through the format table, not a static call)
 //@   uses appNil, snocApp
 //@   ensures (= (isErr err) (not (= (decE (cfg_UseNumber codecJSONdec) in (decCount (cfg_UseNumber codecJSONdec) in)) ioEOF)))        [C05] [C04]
 //@   ensures (=> (not (isErr err)) (= res (VList (jsonReadF (cfg_UseNumber codecJSONdec) in 0))))                                 [C05] [C04]
@@ -1443,7 +1448,7 @@ package bkl
 //
 //@ func jsonMarshalStream(vs) (res, err)
 //@   propagates all   [C08]
-//@   property C05
+//@   property C05, C14   -- $encode: <format> / $decode: <format> run these codecs (reached through the format table, not a static call)
 //@   ensures (exists ((c Int)) (and (= (isErr err) (seqEncErr c (ls vs) 0)) (=> (not (isErr err)) (= res (jsonFrame c (ls vs) 0)))))   [C05]
 //@   loop 1
 //@     invariant (= (encoded enc) idx)
@@ -1452,7 +1457,7 @@ package bkl
 //
 //@ func jsonMarshalStreamPretty(vs) (res, err)
 //@   propagates all   [C08]
-//@   property C05
+//@   property C05, C14   -- $encode: <format> / $decode: <format> run these codecs (reached through the format table, not a static call)
 //@   ensures (exists ((c Int)) (and (= (isErr err) (seqEncErr c (ls vs) 0)) (=> (not (isErr err)) (= res (jsonFrame c (ls vs) 0)))))   [C05]
 //@   loop 1
 //@     invariant (= (encoded enc) idx)
@@ -1461,7 +1466,7 @@ package bkl
 //
 //@ func yamlMarshalStream(vs) (res, err)
 //@   propagates all   [C08]
-//@   property C05
+//@   property C05, C14   -- $encode: <format> / $decode: <format> run these codecs (reached through the format table, not a static call)
 //@   ensures (exists ((c Int)) (and (= (isErr err) (yamlEncErr c (ls vs) 0)) (=> (not (isErr err)) (= res (yamlFrame c (ls vs) 0 0)))))   [C05]
 //@   loop 1
 //@     invariant (= first (= idx 0))
